@@ -25,16 +25,17 @@ const (
 	oSilent                      // no answer before WriteTimeout (remote or local)
 	oLocalErr                    // local: the store returns an error
 	oLocalMissing                // local: ErrShardNotFound -> CreateShard -> stored
+	oLocalMissingErr             // local: ErrShardNotFound -> CreateShard -> the retried write is rejected by the store
 )
 
-var outCode = [...]string{"S", "Ra", "Rr", "P", "Qa", "Qr", "X", "E", "M"}
+var outCode = [...]string{"S", "Ra", "Rr", "P", "Qa", "Qr", "X", "E", "M", "Me"}
 var outName = [...]string{
 	"stored", "retryable-failure+handoff-accepts", "retryable-failure+handoff-refuses", "permanent-rejection",
-	"queue-nonempty+enqueue-accepted", "queue-nonempty+enqueue-refused", "no-answer", "local-store-error", "local-shard-missing-created-stored",
+	"queue-nonempty+enqueue-accepted", "queue-nonempty+enqueue-refused", "no-answer", "local-store-error", "local-shard-missing-created-stored", "local-shard-missing-created-retry-rejected",
 }
 
 var remoteOutcomes = []outcome{oStored, oRetryAcc, oRetryRef, oPermanent, oQneAcc, oQneRef, oSilent}
-var localOutcomes = []outcome{oStored, oLocalErr, oLocalMissing, oSilent}
+var localOutcomes = []outcome{oStored, oLocalErr, oLocalMissing, oLocalMissingErr, oSilent}
 
 var levels = []models.ConsistencyLevel{models.ConsistencyLevelAny, models.ConsistencyLevelOne, models.ConsistencyLevelQuorum, models.ConsistencyLevelAll}
 var levelName = map[models.ConsistencyLevel]string{
